@@ -104,6 +104,9 @@ type Engine struct {
 	clockMax  T
 	clockBase *T
 	thr       *threadLog
+	dumpDir   string
+	dumped    int
+	dumpMax   int
 	curIns    ssa.Instruction
 	wantWitness bool
 	panicAcc  T
